@@ -140,6 +140,39 @@ MANIFEST_TEXT["C16"] = dict(
     note="Trusts the harness' __int128 reference predicates; semantics of pointOnLine (open segment) and segmentShapeIntersect (half-open touching rule) taken from the code's documented behaviour.",
 )
 
+CHECKS["C18"] = dict(
+    level="exploration",
+    exhaustive=False,
+    rule=("table: the complete product gap type {CENTRE,BDRY} x direction {E,S,W,N,R,D,L,U} x relation {==,>=} x gap {12, +0, -0, -12, 3.5, -3.5} x transform sequence "
+          "(7 single transforms, all 49 ordered pairs, CW^4, ACW^4, CW.CW.R180) x storage order ((a,b) or (b,a) with negated direction) x second constraint on the other axis "
+          "(none / before / after) = 67,968 cases; each constraint is read through SepMatrix::writeTglf() (own interpreter of the documented TGLF meaning) and through the "
+          "vpsc::Constraint objects of generateSeparationConstraints(), and evaluated on ~700 two-node placements around every satisfaction threshold (node extents random, "
+          "non-square, swapped by quarter turns and diagonal flips); "
+          "subset: transformClosedSubset/transformOpenSubset/removeNode/removeNodes on random 3-7 node matrices against pair-wise application, Graph::rotate90cw/acw/180; "
+          "roundtrip: random graphs (1-12 nodes, external ids in any order or missing, quarter-unit geometry, routes, 1-10 constrained pairs incl. -0 gaps and extra boundary gap) "
+          "written, parsed independently, read back by the library and written again. non-trivial = (table) the writer accepted the constraint, (subset) the operation "
+          "touches some but not all pairs, (roundtrip) the graph has both edges and constraints"),
+    workloads=[
+        dict(harness="c18_dialect", mode="table", quick=67968, thorough=67968, fixed=True, watchdog=60, san_thorough=67968),
+        dict(harness="c18_dialect", mode="subset", quick=60000, thorough=2000000, watchdog=60, san_thorough=20000),
+        dict(harness="c18_dialect", mode="roundtrip", quick=30000, thorough=1000000, watchdog=60, san_thorough=20000),
+    ],
+    min_nontrivial=dict(quick=80000, thorough=500000),
+    max_inconclusive=0.06,
+    require_obs=["placements_evaluated", "placements_satisfying", "placements_violating", "identity_sequences_checked", "composite_sequences_compared_with_single_transform",
+                 "subset_pairs_expected_transformed", "pairs_expected_removed", "graph_rotations_checked", "round_trips", "constraint_lines_round_tripped", "edges_compared"],
+    exhaustive_note="the table of constraint kind x transform sequence combinations is enumerated completely in both tiers; placements, subset and round-trip inputs are sampled",
+    assumptions=["a CENTRE == 0 cardinal constraint ('constrained to coincide') is refused by the writer with the documented runtime_error: counted as inconclusive (4% of the table)",
+                 "negative gaps have no a-priori reference meaning (the matrix stores direction in the gap's sign bit); they are judged by commutation, flipped storage, group laws and channel agreement only",
+                 "quarter turns and diagonal flips swap each node's width and height in the transformed placement (a geometric transformation of the plane)",
+                 "round-trip data uses at most 6 significant digits (the writer's printed precision) and gaps that are multiples of 1/8 (3 decimals)"],
+)
+MANIFEST_TEXT["C18"] = dict(
+    technique="runtime monitor: exhaustive table of constraint x transform-sequence combinations judged on sampled placements through two observation channels (written TGLF read by an independent interpreter; generated VPSC constraints), plus differential and round-trip monitors on random matrices/graphs",
+    text="Each combination is actually executed (addSep, transform..., writeTglf, generateSeparationConstraints) and the results are compared with a plane map and a constraint interpreter written from the documentation: sat(c,P) <=> sat(T(c),T(P)), identity sequences restore the text, composites agree with the single transform they equal, (a,b)/(b,a) storage gives identical output, both channels agree. Round trips are compared with the generated record by an independent parser, with the re-read graph via the API, and write-read-write must be a fixed point. Held on the executions observed.",
+    note="Trusts the harness' TGLF interpreter (dialect_common.h) and plane maps. Graph::updateColaGraphRep() keeps stale rectangles after setDims/setCentre; the harness writes placement geometry into the rectangles directly (noted in DESIGN.md).",
+)
+
 CHECKS["C03"] = dict(
     level="exploration",
     rule=("cases = scenes of interior-disjoint convex shapes with integer coordinates in three regimes (separated / touching cells sharing edges and corners / dense), "
